@@ -123,3 +123,45 @@ Proof.
   split; [vm_compute; reflexivity|]. split; [vm_compute; reflexivity|].
   eexists. split; vm_compute; reflexivity.
 Qed.
+
+(* ---------- why the object table must reach joint execution (finding D63, repaired) ---------- *)
+(* 'lock' closes every free location (forall-when effect); 'alarm' needs every location free (forall precondition) *)
+Definition dx_text : string :=
+  "(define (domain locks) (:requirements :typing) (:types loc)
+     (:predicates (free ?l - loc) (done))
+     (:action lock :parameters (?x - loc) :precondition (and (free ?x))
+        :effect (and (done) (forall (?l - loc) (when (and (free ?l)) (and (not (free ?l)))))))
+     (:action alarm :parameters (?x - loc) :precondition (and (forall (?l - loc) (and (free ?l))))
+        :effect (and (done))))".
+Definition dx_dom : mdomain :=
+  match parse MStr (s2t dx_text) with
+  | Ok e => match parse_domain jx_num e with Ok d => d | Err _ => empty_domain end
+  | Err _ => empty_domain
+  end.
+Definition dx_objs : objects := [("l1", "loc"); ("l2", "loc")].
+Definition dx_state : state := {| facts := [("free", ["l1"])]; fluents := [] |}.
+Definition dx_cur : mstate := {| ms_init := true; ms_st := dx_state |}.
+Definition dx_lock : action :=
+  {| a_name := "lock"; a_params := [("?x", "loc")]; a_pre := FAnd [FAtom "free" ["?x"]];
+     a_effs := [EPrims [PAdd "done" []]; EForall "?l" "loc" (FAnd [FAtom "free" ["?l"]]) [PDel "free" ["?l"]]] |}.
+Definition dx_alarm : action :=
+  {| a_name := "alarm"; a_params := [("?x", "loc")]; a_pre := FAnd [FForall "?l" "loc" (FAnd [FAtom "free" ["?l"]])];
+     a_effs := [EPrims [PAdd "done" []]] |}.
+Definition dx_tt : tytree := [("loc", "object")].
+Definition lock_l1 : acall := {| ac_name := "lock"; ac_args := ["l1"] |}.
+Definition alarm_l1 : acall := {| ac_name := "alarm"; ac_args := ["l1"] |}.
+
+(* with the object table (the code after the repair) the joint action [(lock l1)] is the PDDL successor and
+   [(alarm l1)] is refused; WITHOUT it (the code before the repair = the same model run with no table) the forall effect
+   is skipped and the inapplicable member is executed *)
+Lemma dx_object_table_needed :
+  m_applicable dx_tt dx_objs jx_eps dx_state (dx_lock, ["l1"]) = true /\
+  m_applicable dx_tt dx_objs jx_eps dx_state (dx_alarm, ["l1"]) = false /\
+  same_state (result_state (apply_actions dx_dom jx_eps (Some dx_objs) id_schedule dx_cur [lock_l1] false))
+             (seq_apply dx_tt dx_objs jx_eps dx_state [(dx_lock, ["l1"])]) = true /\
+  apply_actions dx_dom jx_eps (Some dx_objs) id_schedule dx_cur [alarm_l1] false = Err EValue /\
+  is_ok (apply_actions dx_dom jx_eps None id_schedule dx_cur [lock_l1] false) = true /\
+  same_state (result_state (apply_actions dx_dom jx_eps None id_schedule dx_cur [lock_l1] false))
+             (seq_apply dx_tt dx_objs jx_eps dx_state [(dx_lock, ["l1"])]) = false /\
+  is_ok (apply_actions dx_dom jx_eps None id_schedule dx_cur [alarm_l1] false) = true.
+Proof. repeat split; vm_compute; reflexivity. Qed.
